@@ -270,7 +270,7 @@ func (m *c14Mon) afterBlock() {
 			switch {
 			case !lockedThisBlock[vi]:
 				viol("jailed validator released without a lock request", fmt.Sprintf("v%d", vi))
-			case !blk.Time.After(ju):
+			case blk.Time.Before(ju): // a release exactly at the jail end is after 'the jail time has passed' in the statement's wording
 				viol("jailed validator released before the jail time has passed", fmt.Sprintf("v%d released at %s, jailed until %s", vi, blk.Time.Format(time.RFC3339Nano), ju.Format(time.RFC3339Nano)))
 			case !qv.Locking.IsAllGTE(thr) && len(opsUnlocksFor(ops, vi)) == 0:
 				viol("jailed validator released without meeting every threshold", fmt.Sprintf("v%d holds %s, thresholds %s", vi, qv.Locking, thr))
@@ -317,7 +317,7 @@ func allDenoms(cs ...sdk.Coins) []string {
 func c14History(c *vc.Ctx, idx int) {
 	r := world.NewRand(c.Seed, "c14cfg", idx)
 	nv := 3 + r.Intn(3)
-	cfg := lockCfg{Label: "c14", NVals: nv, MaxVals: int64(nv + 2), Blocks: c.Pick(80, 200), Protect0: true, JumpTime: idx%3 == 0, TargetPunished: true, EvidenceAges: true,
+	cfg := lockCfg{Label: "c14", NVals: nv, MaxVals: int64(nv + 2), Blocks: c.Pick(80, 200), Protect0: true, JumpTime: idx%3 == 0, TargetPunished: true, EvidenceAges: true, TimeEdges: true,
 		W: lockWeights{Create: 6, Lock: 55, Unlock: 20, Claim: 2, Weight: 4, Threshold: 5, Absent: 45, Evidence: 9, DustLock: 10},
 		Params: func(p *lockingtypes.Params) {
 			p.SignedBlocksWindow = int64(6 + r.Intn(5))
